@@ -220,6 +220,11 @@ def parts(ctx):
     if not q:
         A(dict(name="mixed-quant-d2", profile=lambda e: P.mixed_profile(e, quant=True), depth=2, shards=64,
                dom={INT: (-1, 0, 2)}, qdoms=QDOMS, top_ops=lambda o: "_" in o.name or o.name in ("not", "and", "iff")))
+    # ---- array literals beyond a handful of cells
+    A(dict(name="bigarr-d1", profile=P.bigarr_profile, depth=1, shards=16, top_ops=_names("select", "selectb", "eqa", "eqab"),
+           dom={INT: (0, 5, 11, 12)}))
+    A(dict(name="bigarr-d2", profile=P.bigarr_profile, depth=2, shards=32, mid_ops=_names("store", "storeb"),
+           top_ops=_names("select", "selectb", "eqab"), max_new=1, dom={INT: (0, 5, 12)}))
     # ---- uninterpreted functions over array arguments (extensionally equal literals that are different nodes)
     A(dict(name="ufarr-d2", profile=P.ufarr_profile, depth=2, shards=16, mid_ops=_names("f", "g", "k"),
            top_ops=_names("f", "k", "iff", "eqa", "eqk", "not")))
